@@ -189,6 +189,11 @@ func (w *Worker) jsonUnmarshal(c *icall, data SliceV, target IfaceV) ([]*State, 
 				func(st *State) { setRes(st, errV) },
 				func(st *State) {
 					st.store(tp, w.jsonCopy(st, b.Val, b.Typ, st.load(tp), telem))
+					if b.Mis {
+						// encoding/json keeps decoding after a type mismatch and reports it at the end
+						setRes(st, c.opaqueErr(litStr("json: cannot unmarshal value of the wrong type")))
+						return
+					}
 					setRes(st, IfaceV{})
 				})
 		}
